@@ -886,15 +886,95 @@ def long_lines(ctx):
     return res
 
 
+async def _late_reply_session(cut, pause, timeout):
+    """a scripted server answers one command with a two-line reply whose bytes arrive in two segments, `pause` apart;
+    the client has socket_timeout=`timeout`: a wait that expires raises, and the caller who reads on gets the WHOLE
+    reply - what was already received is not lost, what arrives later is not eaten by anybody else"""
+    import aioftp
+
+    reply = b"250-alpha\r\n250 beta\r\n"
+
+    async def handler(reader, writer):
+        writer.write(b"220 scripted\r\n")
+        await reader.readline()
+        writer.write(reply[:cut])
+        await writer.drain()
+        await asyncio.sleep(pause)
+        writer.write(reply[cut:] + b"200 next\r\n")
+        await writer.drain()
+        await reader.read()
+        writer.close()
+
+    srv = await asyncio.start_server(handler, "127.0.0.1", 0)
+    port = srv.sockets[0].getsockname()[1]
+    client = aioftp.Client(socket_timeout=timeout)
+    out = []
+
+    async def read_on():
+        # the caller reads on after a wait that expired, as often as it takes
+        for _ in range(12):
+            try:
+                code, info = await client.parse_response()
+                out.append(("reply", str(code), list(info)))
+                return
+            except asyncio.TimeoutError:
+                if ("timeout",) not in out:
+                    out.append(("timeout",))
+        out.append(("gave-up",))
+
+    try:
+        await client.connect("127.0.0.1", port)
+        try:
+            code, info = await client.command("NOOP", "2xx")
+            out.append(("reply", str(code), list(info)))
+        except asyncio.TimeoutError:
+            out.append(("timeout",))
+            await read_on()
+        await read_on()
+    except Exception as e:  # noqa
+        out.append(("EXC", type(e).__name__))
+    finally:
+        client.close()
+        srv.close()
+        await srv.wait_closed()
+    return out
+
+
+def late_replies(ctx):
+    res = Result()
+    want_tail = [("reply", "250", ["-alpha", " beta"]), ("reply", "200", [" next"])]
+    for timeout in (None, 0.15):
+        # (cuts inside the FIRST line or before it.  Later cuts are left out: the wait that
+        #  expires there does so after `parse_response` has consumed the first line, which it keeps nowhere - a client is
+        #  not promised to be usable after a timeout in the middle of a reply, and the property says nothing of timeouts)
+        for cut in (0, 3, 6, 9):
+            for pause in (0.0, 0.4):
+                res.cases += 1
+                res.count("late_reply")
+                res.distinct.add(("late-reply", timeout, cut, pause))
+                inp = {"kind": "late-reply", "socket_timeout": timeout, "first_segment": cut, "pause": pause}
+                try:
+                    out = asyncio.run(asyncio.wait_for(_late_reply_session(cut, pause, timeout), 20))
+                except Exception as e:  # noqa
+                    out = [("HARNESS", type(e).__name__)]
+                got = [o for o in out if o[0] != "timeout"]
+                if got != want_tail:
+                    res.oracle_failures.append({"input": inp, "what": "a two-line reply sent as %d + %d bytes, %.1f s apart, to a client with socket_timeout=%r: the caller read %r, the server sent %r" % (
+                        cut, 24 - cut, pause, timeout, out, want_tail), "signature": "C06:reply-lost-around-a-timeout"})
+    return res
+
+
 def correspondence(ctx):
     r = _run(ctx)
     r.merge(long_lines(ctx))
+    r.merge(late_replies(ctx))
     return r
 
 
 def search(ctx, prior):
     r = _run(ctx, oracle_only=True)
     r.merge(long_lines(ctx))
+    r.merge(late_replies(ctx))
     return r
 
 
@@ -1002,6 +1082,11 @@ async def _replay_async(inp, verbose=True):
 
 
 def replay(ctx, doc):
+    if doc["failure"]["input"].get("kind") == "late-reply":
+        i = doc["failure"]["input"]
+        out = asyncio.run(_late_reply_session(i["first_segment"], i["pause"], i["socket_timeout"]))
+        print(out)
+        return [o for o in out if o[0] != "timeout"] != [("reply", "250", ["-alpha", " beta"]), ("reply", "200", [" next"])]
     if doc["failure"]["input"].get("kind") == "long-reply-line":
         out = asyncio.run(_long_line_session((doc["failure"]["input"]["line_length"] - 8,)))
         print(out)
